@@ -367,6 +367,80 @@ fn read_found_checks_key(f: &syn::ImplItemFn, blocks: &[&syn::Block]) -> Result<
     Ok(true)
 }
 
+/// `true`: `struct Transaction { owner, parents, content, outputs, signature }` derives PartialEq, Eq, Hash, Ord and
+/// PartialOrd and has no hand-written comparison impls; `false`: Eq/Hash derived, `Ord` hand-written over exactly
+/// owner, parents, content, outputs (signature left out) with `PartialOrd` delegating to it; anything else is refused.
+fn read_transaction_ord(file: &syn::File) -> Result<bool, String> {
+    let st = file
+        .items
+        .iter()
+        .find_map(|it| match it {
+            syn::Item::Struct(s) if s.ident == "Transaction" => Some(s),
+            _ => None,
+        })
+        .ok_or("struct not found")?;
+    let fields: Vec<String> = st.fields.iter().filter_map(|f| f.ident.as_ref().map(|i| i.to_string())).collect();
+    if fields != ["owner", "parents", "content", "outputs", "signature"] {
+        return Err(format!("unexpected fields {fields:?}"));
+    }
+    let mut derives: Vec<String> = vec![];
+    for a in &st.attrs {
+        if a.path().is_ident("derive") {
+            let _ = a.parse_nested_meta(|m| {
+                if let Some(i) = m.path.segments.last() {
+                    derives.push(i.ident.to_string());
+                }
+                Ok(())
+            });
+        }
+    }
+    let has = |n: &str| derives.iter().any(|d| d == n);
+    // hand-written impls of comparison traits for Transaction
+    let mut manual: Vec<(String, &syn::ItemImpl)> = vec![];
+    for it in &file.items {
+        if let syn::Item::Impl(i) = it {
+            if toks(&*i.self_ty) != "Transaction" {
+                continue;
+            }
+            if let Some((_, path, _)) = &i.trait_ {
+                let t = path.segments.last().map(|s| s.ident.to_string()).unwrap_or_default();
+                if ["Ord", "PartialOrd", "PartialEq", "Eq", "Hash"].contains(&t.as_str()) {
+                    manual.push((t, i));
+                }
+            }
+        }
+    }
+    if !(has("PartialEq") && has("Eq") && has("Hash")) || manual.iter().any(|(t, _)| ["PartialEq", "Eq", "Hash"].contains(&t.as_str())) {
+        return Err("PartialEq/Eq/Hash are not (only) derived: the HashSet merge of handle_split_record_error is modelled with all-field equality".into());
+    }
+    if has("Ord") && has("PartialOrd") {
+        return if manual.is_empty() { Ok(true) } else { Err("derived and hand-written ordering at the same time".into()) };
+    }
+    if has("Ord") || has("PartialOrd") {
+        return Err("only one of Ord/PartialOrd is derived".into());
+    }
+    // no derived ordering: recognise the weaker alternative positively
+    let ord = manual.iter().find(|(t, _)| t == "Ord").ok_or("no ordering at all (the BTreeSet merge would not compile)")?;
+    let pord = manual.iter().find(|(t, _)| t == "PartialOrd").ok_or("Ord without PartialOrd")?;
+    let body = |i: &syn::ItemImpl, name: &str| -> Option<String> {
+        i.items.iter().find_map(|ii| match ii {
+            syn::ImplItem::Fn(f) if f.sig.ident == name => Some(toks(&f.block)),
+            _ => None,
+        })
+    };
+    let cmp = body(ord.1, "cmp").ok_or("Ord without cmp")?;
+    if body(pord.1, "partial_cmp").as_deref() != Some("{Some(self.cmp(other))}") {
+        return Err("partial_cmp does not delegate to cmp".into());
+    }
+    let mentions = |f: &str| cmp.contains(&format!("self.{f}")) && cmp.contains(&format!("other.{f}"));
+    let four = ["owner", "parents", "content", "outputs"].iter().all(|f| mentions(f));
+    if four && !cmp.contains("signature") && cmp.starts_with("{(&self.owner,&self.parents,&self.content,&self.outputs).cmp(&(") {
+        Ok(false)
+    } else {
+        Err(format!("hand-written Ord of an unknown shape: {cmp}"))
+    }
+}
+
 /// the branch taken when the result map holds exactly one version answers through `send_record_after_checking_target`
 fn read_single_version_branch(blocks: &[&syn::Block]) -> Result<(), String> {
     let c = collect(blocks);
@@ -721,11 +795,16 @@ pub fn generate(repo: &PathBuf) -> Result<String, String> {
     let send_blocks = with_private_helpers(&kadf, &sender_fn.block, &[]);
     let target_checked = read_target_checked(&send_blocks).map_err(|e| format!("send_record_after_checking_target: {e}"))?;
 
+    // ant-protocol/src/storage/transaction.rs: the split branch of accumulate_get_record_found unions the versions'
+    // transactions in a BTreeSet<Transaction> (uses Ord), handle_split_record_error in a HashSet (uses Eq + Hash)
+    let txf = parse_file(&repo.join("ant-protocol/src/storage/transaction.rs"))?;
+    let tx_ord_all_fields = read_transaction_ord(&txf).map_err(|e| format!("Transaction: {e}"))?;
+
     // driver.rs GetRecordCfg::does_target_match
     let dtm = impl_fn(&drv, "GetRecordCfg", None, "does_target_match")?;
     let (reg_ops_cmp, _cmp_text) = read_does_target_match(dtm).map_err(|e| format!("does_target_match: {e}"))?;
 
-    let mut s = header("ant-protocol/src/lib.rs, ant-networking/src/{lib,driver}.rs, ant-networking/src/event/kad.rs");
+    let mut s = header("ant-protocol/src/{lib,storage/transaction}.rs, ant-networking/src/{lib,driver}.rs, ant-networking/src/event/kad.rs");
     s.push_str("namespace SafeNet.Gen.Quorum\n");
     s.push_str(&format!("/-- `CLOSE_GROUP_SIZE` -/\ndef closeGroupSize : Nat := {cgs}\n"));
     s.push_str(&format!("/-- `close_group_majority()` -/\ndef closeGroupMajority : Nat := {maj_expr}\n"));
@@ -744,6 +823,7 @@ pub fn generate(repo: &PathBuf) -> Result<String, String> {
     s.push_str(&format!("/-- accumulation completes on `responded_peers >= expected_answers` (false: strict `>`) -/\ndef thresholdIsGe : Bool := {}\n", lean_bool(threshold_ge)));
     s.push_str(&format!("/-- `send_record_after_checking_target` answers `RecordDoesNotMatch` unless `cfg.does_target_match(&record)` -/\ndef targetChecked : Bool := {}\n", lean_bool(target_checked)));
     s.push_str(&format!("/-- `accumulate_get_record_found` drops a reply whose `record.key` is not the key of the pending query, before any use of the reply (false: the key is never compared) -/\ndef foundChecksKey : Bool := {}\n", lean_bool(found_checks_key)));
+    s.push_str(&format!("/-- `Transaction` derives `Ord`/`PartialOrd` (and `PartialEq`, `Eq`, `Hash`) over all of its fields owner, parents, content, outputs, signature, so a `BTreeSet<Transaction>` keeps transactions that differ only in the signature apart (false: a hand-written `Ord` that leaves the signature out) -/\ndef txOrdComparesAllFields : Bool := {}\n", lean_bool(tx_ord_all_fields)));
     s.push_str("/-- how `GetRecordCfg::does_target_match` compares the ops of the fetched register with the target's (`is_register`) -/\ninductive OpsCmp where\n  | eq | targetSubsetOfFetched | fetchedSubsetOfTarget\n  deriving DecidableEq, Repr\n");
     s.push_str(&format!("/-- `does_target_match`, register branch: base registers equal && the ops compared as named here; a record that does not deserialise never matches; without `is_register`: `target_record == record` -/\ndef regTargetOpsCmp : OpsCmp := .{reg_ops_cmp}\n"));
     s.push_str("end SafeNet.Gen.Quorum\n");
